@@ -57,6 +57,16 @@ impl TypeSpace {
             return None;
         }
 
+        // The path is emitted verbatim into the generated code; make sure it
+        // is a type path now rather than panicking in to_stream() later.
+        if syn::parse_str::<syn::TypePath>(&path).is_err() {
+            warn!(
+                "{} path is not a valid type path",
+                serde_json::to_string_pretty(&schema).unwrap(),
+            );
+            return None;
+        }
+
         let path = {
             if let Some(crate_spec) = self.settings.crates.get(crate_name.as_str()) {
                 // The version must be non-Never and match the requirements
